@@ -679,7 +679,7 @@ impl CaseDriver for Dag {
     fn describe(&self, t: Tier) -> Describe {
         Describe {
             rule: format!(
-                "placed libraries of n = {}..={} cells: every DAG (cell i may instantiate any subset of the cells j < i) x every listing order of the cells (n!) x reflection base (instance k of a cell gets combination (base+k) mod 4, so all four occur) x content profile (0/1/2 assignments and cuts per layout, witness quadruples with four different numbers); value deviations (transport: message as exported / through prost encode+decode, library / cell names incl. empty and non-ASCII, outline 1-3 steps / repeated step / zero, metals 0..3, views layout / layout+abstract (the abstract optionally with another metal count and outline) / abstract-only leaf / leaf without any view, a layout view named differently from its cell, per-cell assignment and cut counts, a cut / an assignment stated twice (adjacent or apart), crossings between layers three apart / on one layer / with the crossing track on layer 0, net names, per-instance reflection, location incl. (0,0) and negative, duplicated instance) in at most {} place(s). State = one library description + transport; non-trivial = at least one instance, assignment or cut.",
+                "placed libraries of n = {}..={} cells: every DAG (cell i may instantiate any subset of the cells j < i) x every listing order of the cells (n!) x reflection base (instance k of a cell gets combination (base+k) mod 4, so all four occur) x content profile (0/1/2 assignments and cuts per layout, witness quadruples with four different numbers); value deviations (transport: message as exported / through prost encode+decode, library / cell names incl. empty, non-ASCII and names with dots (one of them ending in another cell's name), slashes and colons, outline 1-3 steps / repeated step / zero, metals 0..3, views layout / layout+abstract (the abstract optionally with another metal count and outline) / abstract-only leaf / leaf without any view, a layout view named differently from its cell, per-cell assignment and cut counts, a cut / an assignment stated twice (adjacent or apart), a cut at the very crossing of an assignment, crossings between layers three apart / on one layer / with the crossing track on layer 0, net names, per-instance reflection, location incl. (0,0) and negative, duplicated instance) in at most {} place(s). State = one library description + transport; non-trivial = at least one instance, assignment or cut.",
                 self.nmin,
                 self.nmax,
                 self.bound(t)
@@ -719,7 +719,7 @@ impl CaseDriver for Dag {
         let name = ["lib19", "", "Bibliothèque 19"][c.cost(3, "lib-name")].to_string();
         let mut cells = vec![];
         for i in 0..n {
-            let cname = if i == 0 { ["c0", "Zelle é 0"][c.cost(2, "cell-name")].to_string() } else { format!("c{i}") };
+            let cname = if i == 0 { ["c0", "Zelle é 0", "std.c0", "a.b.c1", "c0.", "/c0:x"][c.cost(6, "cell-name")].to_string() } else { format!("c{i}") };
             let (ox, oy) = outline_alt(i, c.cost(5, "outline"));
             let metals = ([2usize, 0, 3, 1][i % 4] + c.cost(4, "metals")) % 4;
             let leaf = edges[i].is_empty();
@@ -767,6 +767,10 @@ impl CaseDriver for Dag {
                         a.1 = far(&a.1);
                     }
                 }
+            }
+            // a cut at exactly the crossing of an assignment (the schema stores what it is given)
+            if !cuts.is_empty() && !assigns.is_empty() && c.cost(2, "cut-on-an-assignment") == 1 {
+                cuts[0] = assigns[0].1.clone();
             }
             // the same cut / the same assignment stated twice in a row, or once more at the end of the list
             if !cuts.is_empty() {
